@@ -122,7 +122,10 @@ func (s *muxerSegmenter) writeAV1(
 
 			if !bytes.Equal(codec.SequenceHeader, obu) {
 				s.pendingParamsChange = true
+				// codec parameters are read by HTTP handlers while holding the muxer mutex
+				track.stream.mutex.Lock()
 				codec.SequenceHeader = obu
+				track.stream.mutex.Unlock()
 			}
 		}
 	}
@@ -176,6 +179,8 @@ func (s *muxerSegmenter) writeVP9(
 	if !h.NonKeyFrame {
 		randomAccess = true
 
+		// codec parameters are read by HTTP handlers while holding the muxer mutex
+		track.stream.mutex.Lock()
 		if v := h.Width(); v != codec.Width {
 			s.pendingParamsChange = true
 			codec.Width = v
@@ -200,6 +205,7 @@ func (s *muxerSegmenter) writeVP9(
 			s.pendingParamsChange = true
 			codec.ColorRange = h.ColorConfig.ColorRange
 		}
+		track.stream.mutex.Unlock()
 	}
 
 	paramsChanged := false
@@ -249,19 +255,28 @@ func (s *muxerSegmenter) writeH265(
 		case h265.NALUType_VPS_NUT:
 			if !bytes.Equal(codec.VPS, nalu) {
 				s.pendingParamsChange = true
+				// codec parameters are read by HTTP handlers while holding the muxer mutex
+				track.stream.mutex.Lock()
 				codec.VPS = nalu
+				track.stream.mutex.Unlock()
 			}
 
 		case h265.NALUType_SPS_NUT:
 			if !bytes.Equal(codec.SPS, nalu) {
 				s.pendingParamsChange = true
+				// codec parameters are read by HTTP handlers while holding the muxer mutex
+				track.stream.mutex.Lock()
 				codec.SPS = nalu
+				track.stream.mutex.Unlock()
 			}
 
 		case h265.NALUType_PPS_NUT:
 			if !bytes.Equal(codec.PPS, nalu) {
 				s.pendingParamsChange = true
+				// codec parameters are read by HTTP handlers while holding the muxer mutex
+				track.stream.mutex.Lock()
 				codec.PPS = nalu
+				track.stream.mutex.Unlock()
 			}
 		}
 	}
@@ -330,13 +345,19 @@ func (s *muxerSegmenter) writeH264(
 		case h264.NALUTypeSPS:
 			if !bytes.Equal(codec.SPS, nalu) {
 				s.pendingParamsChange = true
+				// codec parameters are read by HTTP handlers while holding the muxer mutex
+				track.stream.mutex.Lock()
 				codec.SPS = nalu
+				track.stream.mutex.Unlock()
 			}
 
 		case h264.NALUTypePPS:
 			if !bytes.Equal(codec.PPS, nalu) {
 				s.pendingParamsChange = true
+				// codec parameters are read by HTTP handlers while holding the muxer mutex
+				track.stream.mutex.Lock()
 				codec.PPS = nalu
+				track.stream.mutex.Unlock()
 			}
 		}
 	}
